@@ -209,6 +209,13 @@ def run(M, rep, tier, only=None):
     for h_ in (f_calc, f_inb, f_mcalc):
         if h_ is not None:
             octx.cfg.opaque[h_.qual] = None
+    dvi = octx.member("DataView", "__init__")
+    if dvi is not None:
+        # what a view is built from is read off the constructor call, not off what the constructor then stores
+        octx.cfg.opaque[dvi.qual] = ("obj", "DataView")
+
+    def view_args(p):
+        return " ".join(show(a.t) for e in p.events if e.kind == "ocall" and e.op.endswith("DataView.__init__") for a in e.args)
     mctx = Ctx(M, coarse=False)
     mctx.cfg.compose = False
     if f_calc is not None:
@@ -288,7 +295,7 @@ def run(M, rep, tier, only=None):
                                    "feature_data and tagged_data then cut the same region differently" % (show(rule.t) if rule is not None else "default"))
                 elif lt == "Indexed" and cn == "MultiTag":
                     sl = [x for x in subterms(p.terminal[1].t) if x and x[0] == "slice"]
-                    heap_sl = " ".join(show(v.t) for v in p.heap.values())
+                    heap_sl = " ".join(show(v.t) for v in p.heap.values()) + " " + view_args(p)
                     if calc:
                         bad = (p, "an indexed feature is cut by the tagged region")
                     elif "posidx" not in heap_sl + txt or "(posidx + 1)" not in heap_sl + txt:
@@ -298,7 +305,7 @@ def run(M, rep, tier, only=None):
                 else:
                     if calc:
                         bad = (p, "an %s feature is cut by the tagged region instead of being returned whole" % lt.lower())
-                    heap_txt = " ".join(show(v.t) for v in p.heap.values()) + txt
+                    heap_txt = " ".join(show(v.t) for v in p.heap.values()) + txt + " " + view_args(p)
                     if "slice(0" not in heap_txt.replace(", ", ",").replace("slice(0,", "slice(0"):
                         bad = (p, "an %s feature is not returned whole" % lt.lower())
             rep.check(R3, key, bad is None and n > 0, bad[1] if bad else "no path returns data for link type %s" % lt,
